@@ -15,7 +15,8 @@ VERIF = os.path.dirname(os.path.dirname(os.path.abspath(__file__)))
 LEAN = os.path.join(VERIF, "lean")
 CACHE = os.path.join(LEAN, ".lake", "exttie")
 DEPS = ["Rngs/Model/Words.lean", "Rngs/Model/RandCore.lean", "Rngs/Model/Xoshiro.lean", "Rngs/Model/XorShift.lean", "Rngs/Model/Jitter.lean", "Rngs/Model/Hc128.lean",
-        "Rngs/Model/Isaac.lean", "Rngs/Lib/XorLinear.lean", "Rngs/Lib/ExtTie.lean", "Rngs/Lib/ExtTieBlock.lean", "Rngs/Lib/ExtTieShapes.lean"]
+        "Rngs/Model/Isaac.lean", "Rngs/Lib/XorLinear.lean", "Rngs/Lib/ExtTie.lean", "Rngs/Lib/ExtTieBlock.lean", "Rngs/Lib/ExtTieShapes.lean",
+        "Rngs/Lib/ExtTieJitter.lean"]
 ALLOWED_AXIOMS = {"propext", "Classical.choice", "Quot.sound"}
 
 def dep_hash():
@@ -57,12 +58,13 @@ def run_once(repo, force, exclude):
         if os.path.exists(cpath) and not force:
             res = json.load(open(cpath))
             res["cached"] = True
+            res["report"] = json.loads(json.dumps(report, default=str))     # verdicts are cached by text; the reasons are this run's
             res["seconds"] = round(time.time() - t0, 2)
             return res
         src = os.path.join(CACHE, f"Gen_{key}.lean")
         open(src, "w").write(text)
         # the library must be built (Rngs.Lib.ExtTie and what it imports)
-        b = subprocess.run(["lake", "build", "Rngs.Lib.ExtTie"], cwd=LEAN, capture_output=True, text=True, stdin=subprocess.DEVNULL)
+        b = subprocess.run(["lake", "build", "Rngs.Lib.ExtTie", "Rngs.Lib.ExtTieJitter"], cwd=LEAN, capture_output=True, text=True, stdin=subprocess.DEVNULL)
         p = subprocess.run(["lake", "env", "lean", src], cwd=LEAN, capture_output=True, text=True, stdin=subprocess.DEVNULL,
                            timeout=3600)
         out = p.stdout + p.stderr
@@ -95,8 +97,9 @@ def run_once(repo, force, exclude):
         def_errors_at = []
         for m in re.finditer(r"^[^\n:]*:(\d+):(\d+): error: (.*?)(?=^\S[^\n]*:\d+:\d+: (?:error|warning)|\Z)", out, re.S | re.M):
             ln, msg = int(m.group(1)), m.group(3).strip()
-            if ln in th_line:
-                errors.setdefault(th_line[ln], msg[:600])
+            if th_line and ln >= min(th_line):
+                # a proof may span several lines: the error belongs to the last theorem that starts at or before it
+                errors.setdefault(th_line[max(k for k in th_line if k <= ln)], msg[:600])
             else:
                 def_errors.append((ln, msg[:300]))
                 if def_at.get(ln):
